@@ -201,6 +201,35 @@ def _copy_propagate(fnode):
     return fnode
 
 
+def _decomprehend(stmts, counter):
+    """`x = [E for t in IT]` (one generator, no condition) -> `x = []; for t in IT: _lc = E; x.append(_lc)` so that a helper
+    called per element becomes a statement-level call the inliner can splice"""
+    out = []
+    for st in stmts:
+        for field in ('body', 'orelse', 'finalbody'):
+            blk = getattr(st, field, None)
+            if isinstance(blk, list) and blk and isinstance(blk[0], ast.stmt):
+                setattr(st, field, _decomprehend(blk, counter))
+        if isinstance(st, ast.Assign) and len(st.targets) == 1 and isinstance(st.targets[0], ast.Name) and isinstance(st.value, ast.ListComp) \
+                and len(st.value.generators) == 1 and not st.value.generators[0].ifs and not st.value.generators[0].is_async \
+                and any(isinstance(c, ast.Call) for c in ast.walk(st.value.elt)):
+            g = st.value.generators[0]
+            counter[0] += 1
+            tmp = f'_lc{counter[0]}'
+            init = ast.Assign(targets=[st.targets[0]], value=ast.List(elts=[], ctx=ast.Load()))
+            body = [ast.Assign(targets=[ast.Name(id=tmp, ctx=ast.Store())], value=st.value.elt),
+                    ast.Expr(value=ast.Call(func=ast.Attribute(value=ast.Name(id=st.targets[0].id, ctx=ast.Load()), attr='append', ctx=ast.Load()),
+                                            args=[ast.Name(id=tmp, ctx=ast.Load())], keywords=[]))]
+            loop = ast.For(target=g.target, iter=g.iter, body=body, orelse=[])
+            for n_ in (init, loop):
+                ast.copy_location(n_, st)
+                ast.fix_missing_locations(n_)
+            out.extend([init, loop])
+            continue
+        out.append(st)
+    return out
+
+
 _cache = {}
 
 
@@ -208,7 +237,17 @@ def normal(prog, f, skip=(), depth=2):
     k = (id(prog), f.key, tuple(sorted(skip)), depth)
     if k in _cache:
         return _cache[k]
-    g = _inline.inlined(prog, f, depth=depth, skip=skip)
+    f0 = f
+    pre = copy.deepcopy(f.node)
+    pre.body = _decomprehend(pre.body, [0])
+    if norm(pre) != norm(f.node):
+        f = copy.copy(f)
+        f.node = pre
+    g = _inline.Inliner(prog, f, depth, skip)
+    gnode = g.run()
+    g.node = gnode
+    g.inlined_helpers = list(g.inlined)
+    f = f0
     node = copy.deepcopy(g.node)
     node.body = _split_tuple_assigns(node.body)
     node.body = _unroll(prog, f, node.body)
